@@ -262,13 +262,20 @@ class C02(Check):
             'reversed records for the first order; thorough: all 24 triple orders of S2 and S4 x 3 record orders, and second-level crashes (every prefix, '
             'from the first changed byte on, of every resumed file of S1 and of S2 with reversed records that is not itself a prefix of L; identical '
             'file contents are resumed once per case). A fault position is non-trivial when the prefix ends inside a record (after at least one byte '
-            'of it and before its newline / the end of its gzip member)')
+            'of it and before its newline / the end of its gzip member). Shape S5 (3 triples; ONE interaction record of 56 rows x 4096 hardly compressible '
+            'characters = 229 kB plain / 174 kB gz, i.e. > 2 blocks of the 65536-byte buffer the recovery code uses, between small records) is not cut at '
+            'every byte but at a stated finite offset set: with n = |file| and [a,b) the long record, every base+j*65536+d and base-j*65536+d for base in '
+            '{0,a,b,n}, all j, d in -3..3 (block boundaries counted from the start and from the END of the file and from both ends of the long record, its '
+            'first/last 3 bytes) plus e-1,e,e+1 for every record boundary e (plain and gz; thorough: 3 triple orders x 3 record orders)')
     ASSUMPTIONS = [
         'crash model: a killed run leaves a byte-prefix of the append-only log (process kill; no page-cache reordering, no power loss)',
         'resumed runs are in-process (processes=1, maxchunksperchild=0, maxtasksperchunk=0); resuming with multi-process configurations is not explored here',
         'the resumed experiment is a fresh, identical experiment: same triple list in the same order (ids are assigned by first appearance), same seed',
-        'a record counts as recorded once its terminating newline (plain) / its complete gzip member (.gz) is in the file; a record whose JSON text is '
-        'complete but whose newline is missing may be kept or redone (both accepted); the result must be right either way',
+        'what counts as recorded does not depend on how the writer framed the file: content = the longest decodable text of the prefix (plain: its bytes; '
+        '.gz: its complete gzip members plus whatever still decompresses out of the torn rest); a triple is recorded iff its whole "I" line including the '
+        'line end is in the content, except that the LAST record of the content may be redone when it is partly written or ends inside the torn rest '
+        'of a .gz file (a record whose JSON text is complete but whose line end is missing may be kept or redone); every earlier record must not be '
+        'evaluated again; the result must be right either way',
         'byte-identity of the final file and the position of records in it are not constrained; undecodable lines in the final file are tolerated as long '
         'as Result.from_file / Experiment.run cope with them',
         'timing columns (predict_time, learn_time) are ignored; a column that is absent equals a column that is None; column order is not compared',
@@ -286,7 +293,7 @@ class C02(Check):
                   'x 2 (thorough 3) record orders x {plain, .gz} is resumed on the real code; thorough adds all 24 triple orders of the 4-triple shapes and '
                   'second-level crashes (the resumed run is killed too). The returned Result, the set of triples evaluated again and the ids in the final '
                   'file are checked against the uninterrupted run.')
-    LEVEL_NOTE = ('in-process resume only; crash model = byte-prefix of the log (process kill); experiments of <=4 triples with <=4 interactions each; '
+    LEVEL_NOTE = ('the log with a multi-block record is cut at the block-straddling offset set only, not at every byte; in-process resume only; crash model = byte-prefix of the log (process kill); experiments of <=4 triples with <=4 interactions each; '
                   'multi-process record orders are represented by triple-list permutations and reversed / rotated record orders, not enumerated')
     MIN_NONTRIVIAL = {'quick': 20000, 'thorough': 250000}
     CASE_TIMEOUT = 300
